@@ -130,6 +130,7 @@ STRUCT = {
     'inline-child-in-head-wrapper': ["A\n", O('t', RT + ' unwrap-block'), "\nif ", O('m', RX), "c", C('m'), " {\n", H(2, 'ws'), "k\n}\n", C('t'), H(2, 'ws'), "B"],
     'unwrap-end-tag-line-has-inner-element': ["A\n", O('m', RX + ' unwrap-block'), "\nif {\n", H(1, 'ind'), "k;\n}\n", O('t', RT), H(1, 'sp'), "x", C('t'), H(1, 'sp'), C('m'), "\nB", H(1)],
     'unwrap-start-tag-line-has-inner-element': ["A\n", O('m', RX + ' unwrap-block'), H(1, 'sp'), O('t', RT), "x", C('t'), "\nif {\n", H(1, 'ind'), "k;\n}\n", C('m'), "\nB", H(1)],
+    'ends-with-close-tag': [H(1), "A\n", O('m', RX), "\nq", H(1), "\n", C('m')],
     'unwrap-ragged': ["A\n", H(1, 'ind'), O('m', RX + ' unwrap-block'), "\n{\n    ", H(1, 'nb'), "a;\n  ", H(2, 'nb'), "b;\n", H(2, 'nb'), "c;\n", H(1, 'ind'), H(1, 'nb'), "d;\n}\n", C('m'), "\nB\n"],
     'unwrap-empty-line-between': [H(1), "A\n", O('m', RX + ' unwrap-block'), H(1, 'ind'), "\n", H(2, 'ind'), "\n", H(1, 'ind'), C('m'), "\nB", H(1)],
     'unwrap-adjacent-lines': [H(1), "A ", O('m', RX + ' unwrap-block'), H(1, 'ind'), "\n", H(1, 'ind'), C('m'), " B", H(1)],
@@ -1003,7 +1004,7 @@ def c18_spelling(ctx, p):
     src2, parts2 = render2(ctx, tpl, ds, de, names)
     cfg2 = dict(cfg1, tl_tag=names['t'], rm_tag=names['m'])
     out1 = ctx.impl.clean(src1, [60], [62], cfg1)
-    out2 = ctx.impl.clean(src2, ds, de, cfg2)
+    out2 = no_panic(ctx, lambda: ctx.impl.clean(src2, ds, de, cfg2), 'clean under the second spelling (the first spelling returns normally)', 'spelling-dependent-panic')
     # rewrite out1 into the second spelling: every '<' ... '>' in out1 is one of the template's tags (holes and literals have neither)
     tagmap = {}
     for q1, q2 in zip(parts1, parts2):
@@ -1034,7 +1035,7 @@ def c18_spelling(ctx, p):
     ctx.check(len(out2) == len(exp) and b_and(same(a, b) for a, b in zip(out2, exp)),
               'clean under the second spelling is not the rewritten output of the first spelling', 'spelling-dependent-clean')
     l1 = ctx.impl.list(src1, [60], [62], cfg1, all=True, format='json')
-    l2 = ctx.impl.list(src2, ds, de, cfg2, all=True, format='json')
+    l2 = no_panic(ctx, lambda: ctx.impl.list(src2, ds, de, cfg2, all=True, format='json'), 'list_all under the second spelling', 'spelling-dependent-panic')
     r1 = [(it['line_range'], it['current_status']) for it in l1.get('items', [])]
     r2 = [(it['line_range'], it['current_status']) for it in l2.get('items', [])]
     ctx.check(r1 == r2, f'list_all line ranges differ between spellings: {r1} vs {r2}', 'spelling-dependent-list')
@@ -1045,11 +1046,11 @@ def c18_jobs(tier, seed):
     rnd = random.Random(seed + 18)
     jobs = []
     names_pool = [dict(t='time-limited', m='removal-marker', u='x-y'), dict(t='期限', m='削除', u='他'), dict(t='T', m='tm', u='t')]
-    tnames = ['block', 'inline', 'ready-in-pending', 'unwrap', 'two-blocks', 'multibyte-seam', 'only-element', 'pending-in-ready', 'unwrap-nested-pending',
+    tnames = ['ends-with-close-tag', 'block', 'inline', 'ready-in-pending', 'unwrap', 'two-blocks', 'multibyte-seam', 'only-element', 'pending-in-ready', 'unwrap-nested-pending',
               'ready-in-unregistered', 'last-line']
     budget = 2 if tier == 'quick' else 4
     if tier == 'quick':
-        tnames = ['ready-in-pending', 'unwrap-nested-pending', 'inline', 'pending-in-ready', 'multibyte-seam']
+        tnames = ['ready-in-pending', 'unwrap-nested-pending', 'inline', 'pending-in-ready', 'ends-with-close-tag']
     for name in tnames:
         tpl = STRUCT[name]
         vs = variants(tpl, budget, 2, rnd, 1 if tier == 'quick' else 6)
